@@ -1,0 +1,21 @@
+//go:build verif
+
+package skipset
+
+// VerifYieldHook, when set (before any goroutine uses a set), is called at the marked points of the
+// optimistic protocol:
+// 1 a remover has marked its victim and has not yet locked the predecessors / unlinked it,
+// 2 an adder has validated its predecessors (it holds their locks) and has not yet linked the new node,
+// 3 an adder has linked the new node on all its lanes and has not yet set fullyLinked,
+// 4 randomLevel between reading highestLevel and the compare-and-swap that raises it,
+// 5 a reader (Load / ContainsB) has found the node and has not yet read its flags / value,
+// 6 an update (Store / LoadOrStore / LoadOrStoreLazy / AddB) has found an existing node and has not yet
+//
+//	looked at its flags / value.
+var VerifYieldHook func(point int)
+
+func verifYield(k int) {
+	if h := VerifYieldHook; h != nil {
+		h(k)
+	}
+}
